@@ -2,9 +2,11 @@
 import itertools, os, sys, json, subprocess
 from hutil import S, unS, err
 import termemu
+from props import c10io
 
 MODEL = "C10"
-MODEL_ENTRY = "run_C10S"        # the driver's entry for C10 (Model/GatedSection.v): run_C10 and, next to it, the two-section sequences
+MODEL_ENTRY = "run_C10IO"       # the driver's entry for C10 (Model/GateIO.v): the histories on an I/O and, next to them, everything run_C10S
+                                # (Model/GatedSection.v: the two-section sequences) and run_C10 (Model/Gate.v: the table) answer
 PROP_FILES = ["Props/C10.v"]
 W = 10                          # terminal width of the two-section sequences ("older content" takes two rows)
 RULE = ("REFLECTION DRIVES THE TABLE: the modules of clikit.api.io and clikit.io are walked, every class that is an Output or an IO "
@@ -28,8 +30,26 @@ RULE = ("REFLECTION DRIVES THE TABLE: the modules of clikit.api.io and clikit.io
         "set_verbosity, and set_quiet / set_verbosity / indent of the OUTPUT the sections belong to (a section created afterwards "
         "starts with them); the stream is observed after every call and compared call by call; the oracle decides allowed / refused "
         "from quiet, verbosity and flags alone and asks: no byte from a refused call, no mark of a refused text anywhere in the "
-        "stream, and (decorated) screen = stacked contents; non-trivial = at least one refused call")
+        "stream, and (decorated) screen = stacked contents; non-trivial = at least one refused call.  THE IO LAYER (Model/GateIO.v, "
+        "props/c10io.py): the single calls of the table made on an I/O object are answered by the model as the HISTORY they are "
+        "(settings through the I/O or its two outputs, before or after section(), then the call; both streams are watched).  "
+        "Histories on every I/O class found: every sequence of <= 2 set_quiet / set_verbosity calls on the I/O, its output, its "
+        "error output (18 letters) x class x {forced ANSI, Plain, ANSI on an ANSI-capable stream}, every sequence of 3 with classes "
+        "and kinds in rotation (thorough: every class, kinds in rotation), a few writes between the setters, then all eight writing methods x one flag word per "
+        "level, then section() and the same on the section I/O, then the parent turned all the way up and both written to again; "
+        "parent + section: every sequence of <= 2 over the 30 letters of I/O 0 and I/O 1 = its section, then a second section, a "
+        "section of the section, Output.section() on an output, on a section output and on that section (sections of sections); "
+        "set_stream / set_formatter among the gate setters (<= 2 over 16 letters; 3 over 13 quick / 16 thorough), the section's own "
+        "stream / formatter changed afterwards; random histories (3000 / 30000) of 5-28 calls over every operation incl. invalid "
+        "verbosities (ValueError, nothing changed), set_interactive, indent / increment_indent, writes on the output objects "
+        "(overwrite on sections).  Every written text carries its own mark; after every call every stream is looked at; compared "
+        "with the model: per call raised / returned / on which streams the mark appeared, at the end quiet, verbosity, "
+        "indentation, supports_ansi(), section?, stream of every output, the two outputs of every I/O, is_interactive(); the "
+        "oracle walks the history on its own; non-trivial = a history with a refused and an allowed write")
 TRUSTED = ["which gate calls guard each method body (Model/Gate.v path) is a transcription, checked by this exhaustive tie",
+           "which output and method each of the eight writing methods of IO delegates to, and which objects each setter touches "
+           "(Model/GateIO.v io_delegate, step), are transcriptions of api/io/io.py and api/io/output.py, checked by the same tie; at "
+           "this level a text is its mark (bytes are C11 / C15)",
            "harness/translate.py (fail-closed translator of a pure subset of Python, driven by ast; its reading of that subset and the "
            "declared types of self._quiet / self._verbosity / flags are trusted) regenerates coq/theories/Generated/GenGate.v from "
            "Output._may_write and the constants of api/io/flags.py in the source tree on every run (bin/setup), and the theorems "
@@ -39,7 +59,11 @@ ASSUMPTIONS = ["verbosity is one of NORMAL/VERBOSE/VERY_VERBOSE/DEBUG (set_verbo
                "reading fixed here: the settings of a section output are those its output (its I/O) had when section() was called, "
                "until set_quiet / set_verbosity are called on the section itself (proposed-fixes/section-inherits-gate.md)",
                "gated_screen_is_stack: the texts of the ALLOWED writes are good markup (C15's class), the refused ones may be "
-               "anything; refused_call_is_invisible / refused_text_never_appears: none"]
+               "anything; refused_call_is_invisible / refused_text_never_appears: none",
+               "IO layer: io_gate_iff, io_monotone: none (every history from a fresh I/O); the theorems about one step name the "
+               "objects they speak of (the I/O exists, its outputs exist); an I/O class differs for the model only in whether its "
+               "section() works (NullIO: TypeError, the documented exception); clear / add_content and the stacking of a section of "
+               "a section are outside the histories"]
 # finding made by this model, repaired in /repo a112510: SectionOutput.clear() / overwrite() of a quiet decorated section emitted
 # nothing but cut the recorded content.  The oracle's claim "a refused call leaves no trace" is made for every call.
 
@@ -101,6 +125,8 @@ def gen(rng, tier, info):
                             for order in ((0, 1) if is_sec and name != "clear" else (0,)):
                                 c = {"T": cls, "sec": sec, "k": 1 if is_sec else 0, "name": name, "fmt": fmt, "q": q, "v": v,
                                      "f": None if f == "nf" else f, "via": via_io}
+                                if kind == "io":
+                                    c["io"] = 1          # compared with the IO layer of the model (Model/GateIO.v)
                                 if f == "nf":
                                     c["nf"] = 1
                                 if order:
@@ -139,8 +165,13 @@ def gen(rng, tier, info):
     nseq = {"quick": 4000, "thorough": 40000, "search": 1000}[tier]
     for _ in range(nseq):
         cases.append({"later": 1, "fmt": rng.choice((0, 0, 4, 2)), "ops": seq_ops(rng)})
+    # the IO layer: histories of setters (on the I/O, on its outputs), section() at both levels, set_stream / set_formatter,
+    # and writes through every writing method of the I/O classes found (props/c10io.py, Model/GateIO.v)
+    hist_counts = {}
+    io_found = [(t["cls"], bool(t["sec"])) for t in found["targets"] if t["kind"] == "io"]
+    cases += c10io.gen(rng, tier, io_found, hist_counts)
     info["exhaustive"] = True
-    info["distribution"] = {"classes_found": [t["cls"] + (" (+ its section())" if t["sec"] else "") for t in found["targets"]],
+    info["distribution"] = {"io_histories": hist_counts,"classes_found": [t["cls"] + (" (+ its section())" if t["sec"] else "") for t in found["targets"]],
                             "no_section": found["no_section"],
                             "public_members_called": len(found["entries"]),
                             "writers_found": sorted("%s.%s" % (e["cls"], e["name"]) for e in found["entries"] if e["writer"]),
@@ -303,7 +334,40 @@ def w_op(o):
     return list(o)
 
 
+FMT_KIND = {0: (1, 0), 1: (0, 0), 2: (2, 0), 3: (3, 0), 4: (0, 1)}     # fmt -> (formatter kind of the model, stream supports ANSI?)
+
+
+def is_io_case(c):
+    """a single call of the table made on an I/O object (c normalised): it is the IO layer of the model that answers"""
+    return bool(c.get("io")) or c["T"] in ("IO", "BufferedIO", "ConsoleIO", "NullIO")
+
+
+def io_case_history(c):
+    """the single call of the table as the history it is: the settings given through the I/O or through its two outputs, to the
+    object called or to the parent before section(), then the one writing call"""
+    fk, sa = FMT_KIND[c["fmt"]]
+    q, v = c["q"], c["v"]
+
+    def conf(i):
+        a, b = (0, 1) if i == 0 else (2, 3)
+        if c["via"]:
+            return [["q", i, q], ["v", i, v]]
+        return [["oq", a, q], ["ov", a, v], ["oq", b, q], ["ov", b, v]]
+    if c["sec"] and c.get("ord"):
+        ops = conf(0) + [["sec", 0]]
+    elif c["sec"]:
+        ops = [["sec", 0]] + conf(1)
+    else:
+        ops = conf(0)
+    ops.append(["w", 1 if c["sec"] else 0, c["name"], "nf" if c.get("nf") else c["f"]])
+    return {"T": c["T"], "fk": fk, "sa": sa, "ops": ops}
+
+
 def wire(case):
+    if "hist" in case:
+        return c10io.wire(case)
+    if "later" not in case and "reflect" not in case and "consts" not in case and is_io_case(norm(case)):
+        return c10io.wire(io_case_history(norm(case)))
     if "later" in case:
         groups, _ = later_groups(case)
         return [98, 1 if is_ansi(case) else 0, 1 if case["fmt"] == 0 else 0, W, [w_style(x) for x in default_set()],
@@ -317,6 +381,8 @@ def wire(case):
 
 
 def describe(case):
+    if "hist" in case:
+        return c10io.describe(case)
     if "ops" in case:
         def d(o):
             if o[0] == 0:
@@ -624,7 +690,8 @@ def _call(case, permissive):
     if not c.get("ord"):
         configure(t.obj)
     stream = t.se if (name in IO_METHS and IO_METHS[name][0] == 1) else t.so
-    before = stream.fetch()
+    other = t.so if stream is t.se else t.se
+    before, obefore = stream.fetch(), other.fetch()
     meth = getattr(t.obj, name)
     if name == "clear":
         meth()
@@ -640,6 +707,7 @@ def _call(case, permissive):
             return mid[len(before):]           # add_content itself writes nothing
         trigger(t)
     after = stream.fetch()
+    _call.other = other.fetch()[len(obefore):]       # what the call put on the stream it is NOT expected to write to
     return after[len(before):]
 
 
@@ -682,6 +750,13 @@ def _later(case):
 
 
 def run_impl(case):
+    if "hist" in case:
+        try:
+            return ["HIST"] + c10io.run_history(case, instance, io_classes)
+        except c10io.HarnessError:
+            raise
+        except Exception as e:
+            return ["EXC", type(e).__name__, str(e)[:100], err(e)]
     if "later" in case:
         try:
             return ["LATER"] + _later(case)
@@ -707,7 +782,7 @@ def run_impl(case):
         emitted = len(got) > 0
     else:
         emitted = "MARK" in got
-    return [1 if exists else 0, 1 if emitted else 0, 1 if got else 0]
+    return [1 if exists else 0, 1 if emitted else 0, 1 if got else 0, 1 if "MARK" in (getattr(_call, "other", "") or "") else 0]
 
 
 def _screen(datas):
@@ -716,7 +791,27 @@ def _screen(datas):
     return [[S(r) for r in t.screen()], t.r, t.c]
 
 
+def canon_model_w(case, w):
+    """string level: the answer to a history is compared as the driver printed it"""
+    if "hist" in case:
+        return w
+    from hutil import to_wire, from_wire
+    return to_wire(canon_model(case, from_wire(w)))
+
+
 def canon_model(case, obs):
+    if "hist" in case:
+        return obs
+    if "later" not in case and "reflect" not in case and "consts" not in case and is_io_case(norm(case)):
+        # the answer of the IO layer to the history this call is: what the LAST call (the writing one) showed.  -> [a text-writing
+        # entry point, the text reached the stream the harness watches for this method, it reached another stream]
+        if not (isinstance(obs, list) and obs and obs[0] == 0):
+            return obs
+        last = obs[1][-1]
+        if last[0] != 1:
+            return ["LAST-CALL", last]
+        watched = IO_METHS[norm(case)["name"]][0]
+        return [1, 1 if watched in last[1] else 0, 1 if [x for x in last[1] if x != watched] else 0]
     if "later" in case:
         # (0 emits-per-group sections terminal): the implementation side is brought to the same shape
         return obs
@@ -727,6 +822,12 @@ def canon_model(case, obs):
 
 
 def canon_impl(case, obs):
+    if "hist" in case:
+        if obs and obs[0] == "HIST":
+            return [0] + obs[1:5]
+        return obs[3] if obs and obs[0] == "EXC" else obs
+    if "later" not in case and "reflect" not in case and "consts" not in case and obs and obs[0] != "EXC" and is_io_case(norm(case)):
+        return [obs[0], obs[1], obs[3]]
     if "later" in case:
         if obs and obs[0] == "LATER":
             _, seen, _f, state = obs
@@ -800,6 +901,10 @@ def oracle_seq(case, seen, state):
 
 
 def oracle(case, obs):
+    if "hist" in case:
+        if obs[0] == "EXC":
+            return "exception:" + obs[1]
+        return c10io.oracle(case, obs[1:], lowest)
     if "later" in case:
         if obs[0] == "EXC":
             return "exception:" + obs[1]
@@ -840,8 +945,10 @@ def oracle(case, obs):
         return None if obs == [0, 1, 2, 4] else "flag-constants-changed"
     if obs and obs[0] == "EXC":
         return "exception:" + obs[1]
-    exists, emitted, anybytes = obs
+    exists, emitted, anybytes = obs[:3]
     c = norm(case)
+    if len(obs) > 3 and obs[3]:
+        return "wrong-stream:%s.%s" % (target_name(c), c["name"])
     name = c["name"]
     f = case["f"] if name not in ("overwrite", "clear", "add_content") else None
     if not exists:
@@ -858,6 +965,8 @@ def oracle(case, obs):
 
 
 def nontrivial_key(case, obs):
+    if "hist" in case:
+        return ["hist", case["T"], case["fk"], case["sa"], case["ops"]] if c10io.nontrivial(case, lowest) else None
     if "ops" in case:
         return ["seq", case["fmt"], case["ops"]] if not all(ok for ok, _ in seq_walk(case)) else None
     if "later" in case:
@@ -871,6 +980,10 @@ def nontrivial_key(case, obs):
 
 
 def shrink(case):
+    if "hist" in case:
+        for c in c10io.shrink(case):
+            yield c
+        return
     if "ops" in case:
         ops = case["ops"]
         for i in range(1, len(ops)):
